@@ -80,6 +80,63 @@ def run_all(ctx, tier):
                     break
         rc.close()
     include_order(ctx, tier)
+    file_history(ctx, tier)
+
+
+def file_history(ctx, tier):
+    """the result is a function of the file contents AT THE TIME OF THE CALL: in one process, a source file, an included file
+    and an include_bytes file are each replaced by different contents of the same length with the same modification time
+    (cp -p, rsync -a, a sandbox that normalises mtimes); the next call must see the new contents, and a call that failed on
+    a broken include must succeed once the file is repaired"""
+    import shutil
+    import tempfile
+    root = tempfile.mkdtemp(prefix='bbpurf_')
+    ctx.b_rule('purity/files: main.asm, an included file and an include_bytes file each replaced (same length, same mtime and with a new mtime) '
+               'between two calls in one process; a failing include repaired; compared with a fresh process on the final tree')
+    try:
+        main = os.path.join(root, 'main.asm')
+        inc = os.path.join(root, 'consts.asm')
+        blob = os.path.join(root, 'blob.bin')
+
+        def write(path, data, keep=None):
+            mode = 'wb' if isinstance(data, bytes) else 'w'
+            with open(path, mode) as f:
+                f.write(data)
+            if keep is not None:
+                os.utime(path, ns=keep)
+
+        steps = [
+            ('include, same mtime', inc, 'VALUE = 0x11\n', 'VALUE = 0x22\n'),
+            ('include, new mtime', inc, 'VALUE = 0x11\n', 'VALUE = 0x33\n'),
+            ('main, same mtime', main, None, None),
+            ('blob, same mtime', blob, bytes([1, 2, 3, 4]), bytes([9, 8, 7, 6])),
+            ('broken include repaired', inc, 'VALUE = 0x44 +\n', 'VALUE = 0x44 \n'),
+        ]
+        main_a = 'include consts.asm\nstart:\n    addi x5, x0, VALUE\ninclude_bytes blob.bin\n    j start\n'
+        main_b = 'include consts.asm\nstart:\n    addi x6, x0, VALUE\ninclude_bytes blob.bin\n    j start\n'
+        for name, path, before, after in steps:
+            write(inc, 'VALUE = 0x11\n')
+            write(blob, bytes([1, 2, 3, 4]))
+            write(main, main_a)
+            if path == main:
+                before, after = main_a, main_b
+            write(path, before)
+            st = os.stat(path)
+            rc = R.RealCode()
+            first = strip(rc.assemble(main, cwd='/'))
+            write(path, after, keep=(st.st_atime_ns, st.st_mtime_ns) if 'same mtime' in name or 'repaired' in name else None)
+            second = strip(rc.assemble(main, cwd='/'))
+            rc.close()
+            fresh_rc = R.RealCode()
+            fresh = strip(fresh_rc.assemble(main, cwd='/'))
+            fresh_rc.close()
+            ctx.b_eval('purity', ('file-history', name), nontrivial=True, sample={'step': name, 'first': str(first)[:80], 'second': str(second)[:80]})
+            if second != fresh:
+                ctx.violation('bounded/purity/history', 'history-dependent:file-contents', 'after %s was replaced (%s) a second call in the same process gives %s, '
+                              'a fresh process %s' % (os.path.basename(path), name, str(second)[:120], str(fresh)[:120]),
+                              {'step': name, 'file': os.path.basename(path), 'before': repr(before), 'after': repr(after), 'main': main_a}, confirmed=True)
+    finally:
+        shutil.rmtree(root, ignore_errors=True)
 
 
 def include_order(ctx, tier):
